@@ -945,6 +945,7 @@ package rtcp
 //@   requires nonnil: forall k :: 0 <= k && k < len(t.RecvDeltas) ==> t.RecvDeltas[k] != nil
 //@   ensures size: 20 + 2*len(t.PacketChunks) + specDeltasLen(t.RecvDeltas, len(t.RecvDeltas)) <= 65532 ==> result == 20 + 2*len(t.PacketChunks) + specDeltasLen(t.RecvDeltas, len(t.RecvDeltas)) + specPad4(20 + 2*len(t.PacketChunks) + specDeltasLen(t.RecvDeltas, len(t.RecvDeltas)))
 //@   ensures aligned: result%4 == 0 && result >= 0 && result <= 65536
+//@   ensures nonneg: specDeltasLen(t.RecvDeltas, len(t.RecvDeltas)) >= 0
 
 //@ func (t *TransportLayerCC) Len() (result uint16)
 //@   safety[C09,C17]
@@ -1082,3 +1083,162 @@ package rtcp
 //@   loop 1
 //@     invariant 0 <= iter() && iter() <= len(b.MetricBlocks)
 //@     decreases len(b.MetricBlocks) - iter()
+
+// ===================================================================================================
+// extended_report.go — reflection-driven codec: outside the verifier's subset. The contracts below are
+// TRUSTED (assumed, never proved); they are listed in every evidence file that uses them.
+// ===================================================================================================
+
+//@ func (x *ExtendedReport) Unmarshal(b []byte) (err error)
+//@   trusted
+//@   modifies *x
+//@   allocates[C01] 4096 + 64*len(b)
+//@   ensures[C07] type: err == nil ==> len(b) >= 4 && b[0]>>6 == 2 && b[1] == 207
+
+//@ func (x ExtendedReport) Marshal() (result []byte, err error)
+//@   trusted
+//@   fresh
+
+//@ func (x ExtendedReport) MarshalSize() (result int)
+//@   trusted
+
+//@ func (x *ExtendedReport) DestinationSSRC() (result []uint32)
+//@   trusted
+//@   fresh
+
+//@ func (x *ExtendedReport) String() (result string)
+//@   trusted
+
+//@ func stringify(p Packet) (result string)
+//@   trusted
+
+// ===================================================================================================
+// packet.go
+// ===================================================================================================
+
+//@ func unmarshal(rawData []byte) (packet Packet, bytesprocessed int, err error)
+//@   safety[C01]
+//@   nocap
+//@   allocates[C01] 4200000 + 256*len(rawData)
+//@   ensures[C06] frame: err == nil ==> len(rawData) >= 4 && bytesprocessed == 4*(int(be16(rawData, 2))+1) && bytesprocessed <= len(rawData)
+//@   ensures[C06] local: err == nil ==> sameSlice(traceBytes(ncalls()-1), rawData[:bytesprocessed])
+//@   ensures[C06,C07] nonnil: err == nil ==> packet != nil
+//@   ensures[C07] sr: err == nil && rawData[1] == 200 ==> isType(packet, (*SenderReport)(nil))
+//@   ensures[C07] rr: err == nil && rawData[1] == 201 ==> isType(packet, (*ReceiverReport)(nil))
+//@   ensures[C07] sdes: err == nil && rawData[1] == 202 ==> isType(packet, (*SourceDescription)(nil))
+//@   ensures[C07] bye: err == nil && rawData[1] == 203 ==> isType(packet, (*Goodbye)(nil))
+//@   ensures[C07] app: err == nil && rawData[1] == 204 ==> isType(packet, (*ApplicationDefined)(nil))
+//@   ensures[C07] nack: err == nil && rawData[1] == 205 && rawData[0]&31 == 1 ==> isType(packet, (*TransportLayerNack)(nil))
+//@   ensures[C07] rrr: err == nil && rawData[1] == 205 && rawData[0]&31 == 5 ==> isType(packet, (*RapidResynchronizationRequest)(nil))
+//@   ensures[C07] ccfb: err == nil && rawData[1] == 205 && rawData[0]&31 == 11 ==> isType(packet, (*CCFeedbackReport)(nil))
+//@   ensures[C07] twcc: err == nil && rawData[1] == 205 && rawData[0]&31 == 15 ==> isType(packet, (*TransportLayerCC)(nil))
+//@   ensures[C07] pli: err == nil && rawData[1] == 206 && rawData[0]&31 == 1 ==> isType(packet, (*PictureLossIndication)(nil))
+//@   ensures[C07] sli: err == nil && rawData[1] == 206 && rawData[0]&31 == 2 ==> isType(packet, (*SliceLossIndication)(nil))
+//@   ensures[C07] fir: err == nil && rawData[1] == 206 && rawData[0]&31 == 4 ==> isType(packet, (*FullIntraRequest)(nil))
+//@   ensures[C07] remb: err == nil && rawData[1] == 206 && rawData[0]&31 == 15 ==> isType(packet, (*ReceiverEstimatedMaximumBitrate)(nil))
+//@   ensures[C07] xr: err == nil && rawData[1] == 207 ==> isType(packet, (*ExtendedReport)(nil))
+//@   ensures[C07] rawpt: err == nil && (rawData[1] < 200 || rawData[1] > 207) ==> isType(packet, (*RawPacket)(nil)) && sameSlice(*dyn(packet, (*RawPacket)(nil)), rawData[:bytesprocessed])
+//@   ensures[C07] rawtsfb: err == nil && rawData[1] == 205 && rawData[0]&31 != 1 && rawData[0]&31 != 5 && rawData[0]&31 != 11 && rawData[0]&31 != 15 ==> isType(packet, (*RawPacket)(nil)) && sameSlice(*dyn(packet, (*RawPacket)(nil)), rawData[:bytesprocessed])
+//@   ensures[C07] rawpsfb: err == nil && rawData[1] == 206 && rawData[0]&31 != 1 && rawData[0]&31 != 2 && rawData[0]&31 != 4 && rawData[0]&31 != 15 ==> isType(packet, (*RawPacket)(nil)) && sameSlice(*dyn(packet, (*RawPacket)(nil)), rawData[:bytesprocessed])
+
+//@ func Unmarshal(rawData []byte) (result []Packet, err error)
+//@   safety[C01]
+//@   nocap
+//@   mathint
+//@   ensures[C06] empty: len(rawData) == 0 ==> err != nil
+//@   ensures[C06] allornothing: err != nil ==> len(result) == 0
+//@   ensures[C06] nonempty: err == nil ==> len(result) >= 1
+//@   loop 1
+//@     invariant[C06] isSuffix(rawData, old(rawData)) && (len(packets) == 0 ==> sameSlice(rawData, old(rawData)))
+//@     invariant len(packets) >= 0
+//@     decreases len(rawData)
+
+//@ func Marshal(packets []Packet) (result []byte, err error)
+//@   safety[C09]
+//@   mathint
+//@   ensures[C08] nobytes: err != nil ==> len(result) == 0
+//@   loop 1
+//@     invariant 0 <= iter() && iter() <= len(packets)
+//@     decreases len(packets) - iter()
+
+// ===================================================================================================
+// compound_packet.go
+// ===================================================================================================
+
+//@ func specItemsHaveCNAME(items []SourceDescriptionItem, n int) (result bool)
+//@   rec
+
+//@ func specChunksHaveCNAME(chunks []SourceDescriptionChunk, n int) (result bool)
+//@   rec
+
+//@ func specScan(c []Packet, j int, n int) (result bool)
+//@   rec
+
+//@ func (c CompoundPacket) Validate() (err error)
+//@   safety[C09,C11]
+//@   ensures[C11] exact: (err == nil) <==> specCompoundValid(c)
+//@   loop 1
+//@     invariant 0 <= iter() && iter() <= len(c)-1 && len(c) >= 1 && specFirstIsReport(c)
+//@     invariant[C11] specScan(c, 1, len(c)) == specScan(c, 1+iter(), len(c))
+//@     decreases len(c) - 1 - iter()
+//@   loop 2
+//@     invariant 0 <= iter() && iter() <= len(p.Chunks)
+//@     invariant[C11] hasCNAME == specChunksHaveCNAME(p.Chunks, iter())
+//@     decreases len(p.Chunks) - iter()
+//@   loop 3
+//@     invariant 0 <= iter() && iter() <= len(c.Items)
+//@     invariant[C11] hasCNAME == (before(hasCNAME) || specItemsHaveCNAME(c.Items, iter()))
+//@     decreases len(c.Items) - iter()
+
+//@ func (c CompoundPacket) Marshal() (result []byte, err error)
+//@   safety[C09]
+//@   ensures[C11] validates: err == nil ==> specCompoundValid(c)
+//@   ensures[C08] nobytes: err != nil ==> len(result) == 0
+
+//@ func (c *CompoundPacket) Unmarshal(rawData []byte) (err error)
+//@   safety[C01]
+//@   modifies *c
+//@   nocap
+//@   mathint
+//@   ensures[C11] validates: err == nil ==> specCompoundValid(*c)
+//@   loop 1
+//@     invariant isSuffix(rawData, old(rawData)) && len(out) >= 0
+//@     decreases len(rawData)
+
+//@ func (c CompoundPacket) MarshalSize() (result int)
+//@   safety[C09,C17]
+//@   mathint
+//@   loop 1
+//@     invariant 0 <= iter() && iter() <= len(c)
+//@     decreases len(c) - iter()
+
+//@ func (t TransportLayerCC) Marshal() (result []byte, err error)
+//@   safety[C09]
+//@   fresh
+//@   requires[C09] nonnil: forall k :: 0 <= k && k < len(t.RecvDeltas) ==> t.RecvDeltas[k] != nil
+//@   requires[C09] chunks: forall k :: 0 <= k && k < len(t.PacketChunks) ==> t.PacketChunks[k] != nil
+//@   requires[C09] bounded: 20 + 2*len(t.PacketChunks) + specDeltasLen(t.RecvDeltas, len(t.RecvDeltas)) <= 65532
+//@   ensures[C08] hdr: err == nil ==> t.Header.Count <= 31
+//@   ensures[C08] deltas: forall k :: err == nil && 0 <= k && k < len(t.RecvDeltas) ==> (t.RecvDeltas[k].Type == 1 && 0 <= t.RecvDeltas[k].Delta/250 && t.RecvDeltas[k].Delta/250 <= 255) || (t.RecvDeltas[k].Type == 2 && -32768 <= t.RecvDeltas[k].Delta/250 && t.RecvDeltas[k].Delta/250 <= 32767)
+//@   ensures[C08] nobytes: err != nil ==> len(result) == 0
+//@   ensures[C03,C05] size: err == nil ==> len(result) == 20 + 2*len(t.PacketChunks) + specDeltasLen(t.RecvDeltas, len(t.RecvDeltas)) + specPad4(20 + 2*len(t.PacketChunks) + specDeltasLen(t.RecvDeltas, len(t.RecvDeltas)))
+//@   ensures[C03,C05,C07] header: err == nil ==> be32(result, 0) == specHeaderWord(t.Header.Padding, t.Header.Count, uint8(t.Header.Type), t.Header.Length)
+//@   ensures[C03] fixed: err == nil ==> be32(result, 4) == t.SenderSSRC && be32(result, 8) == t.MediaSSRC && be16(result, 12) == t.BaseSequenceNumber && be16(result, 14) == t.PacketStatusCount && be24(result, 16) == t.ReferenceTime&0xFFFFFF && result[19] == t.FbPktCount
+//@   loop 1
+//@     invariant 0 <= iter() && iter() <= len(t.PacketChunks) && len(payload) == 16 + 2*len(t.PacketChunks) + specDeltasLen(t.RecvDeltas, len(t.RecvDeltas)) + specPad4(20 + 2*len(t.PacketChunks) + specDeltasLen(t.RecvDeltas, len(t.RecvDeltas))) && specDeltasLen(t.RecvDeltas, len(t.RecvDeltas)) >= 0
+//@     invariant[C03] be32(payload, 0) == t.SenderSSRC && be32(payload, 4) == t.MediaSSRC && be16(payload, 8) == t.BaseSequenceNumber && be16(payload, 10) == t.PacketStatusCount && be24(payload, 12) == t.ReferenceTime&0xFFFFFF && payload[15] == t.FbPktCount
+//@     decreases len(t.PacketChunks) - iter()
+//@   loop 2
+//@     invariant 0 <= iter() && iter() <= len(t.RecvDeltas) && 0 <= i && i <= 2*iter() && len(payload) == 16 + 2*len(t.PacketChunks) + specDeltasLen(t.RecvDeltas, len(t.RecvDeltas)) + specPad4(20 + 2*len(t.PacketChunks) + specDeltasLen(t.RecvDeltas, len(t.RecvDeltas))) && specDeltasLen(t.RecvDeltas, len(t.RecvDeltas)) >= 0
+//@     invariant[C03] be32(payload, 0) == t.SenderSSRC && be32(payload, 4) == t.MediaSSRC && be16(payload, 8) == t.BaseSequenceNumber && be16(payload, 10) == t.PacketStatusCount && be24(payload, 12) == t.ReferenceTime&0xFFFFFF && payload[15] == t.FbPktCount
+//@     invariant[C08] forall k :: 0 <= k && k < iter() ==> (t.RecvDeltas[k].Type == 1 && 0 <= t.RecvDeltas[k].Delta/250 && t.RecvDeltas[k].Delta/250 <= 255) || (t.RecvDeltas[k].Type == 2 && -32768 <= t.RecvDeltas[k].Delta/250 && t.RecvDeltas[k].Delta/250 <= 32767)
+//@     decreases len(t.RecvDeltas) - iter()
+
+//@ func (t TransportLayerCC) String() (result string)
+//@   safety[C17]
+//@   loop 1
+//@     invariant 0 <= iter() && iter() <= len(t.PacketChunks)
+//@     decreases len(t.PacketChunks) - iter()
+//@   loop 2
+//@     invariant 0 <= iter() && iter() <= len(t.RecvDeltas)
+//@     decreases len(t.RecvDeltas) - iter()
